@@ -1,12 +1,662 @@
 //! Directed scenarios: deterministic sweeps that are still driven through the
-//! real node and judged by the same oracles (all 512 TCP flag values, every
-//! truncation length of canonical frames, ...).
+//! real node and judged by the same oracles (all 512 TCP flag values in four
+//! flow states, every truncation length of canonical frames, DNS id sweep
+//! aiming at a zero UDP checksum over IPv6, all ICMP type/code pairs, all
+//! 1- and 2-cut compositions of canonical HTTP / RPC streams, every byte at
+//! each wildcard position of the RPC signatures).
+//!
+//! The SipHash cookie *predictor* below only aims probes (it lets a static
+//! schedule validate a flow); it is never used as an oracle.
 
+use std::hash::Hasher;
+use std::net::{IpAddr, Ipv4Addr, Ipv6Addr};
+
+use siphasher::sip::SipHasher24;
+
+use crate::apps::{dns, http, rpc, smb, ssh, stun};
 use crate::exec::Step;
-use crate::node::Config;
+use crate::node::{Build, Config, LoggerKind};
+use crate::rng::{derive, Rng};
+use crate::wire::*;
 
-pub type Scenario = (String, Config, u64, Vec<Step>);
+pub struct Scenario {
+    pub name: String,
+    pub cfg: Config,
+    pub start_ms: u64,
+    pub steps: Vec<Step>,
+    /// auxiliary-execution budget for the oracle on this scenario
+    pub samples: usize,
+}
 
-pub fn scenarios(_prop: &str, _tier: &str, _seed: u64) -> Vec<Scenario> {
-    Vec::new()
+const NODE_MAC: Mac = [0xc0, 0xff, 0xee, 0xc0, 0xff, 0xee];
+const PEER_MAC: Mac = [0x02, 0, 0, 0, 0, 0x01];
+const START: u64 = 1_700_000_000_000;
+
+fn node4() -> Ipv4Addr {
+    Ipv4Addr::new(10, 0, 0, 1)
+}
+fn node6() -> Ipv6Addr {
+    Ipv6Addr::new(0x2001, 0xdb8, 0, 0, 0, 0, 0, 1)
+}
+fn peer4() -> Ipv4Addr {
+    Ipv4Addr::new(192, 0, 2, 1)
+}
+fn peer6() -> Ipv6Addr {
+    Ipv6Addr::new(0x2001, 0xdb8, 0xffff, 0, 0, 0, 0, 1)
+}
+
+fn cfg(build: Build, logger: LoggerKind, level: u8, key: [u64; 2]) -> Config {
+    Config {
+        mac: NODE_MAC,
+        key,
+        self_ips: Some(vec![IpAddr::V4(node4()), IpAddr::V6(node6())]),
+        deny: None,
+        logger,
+        level,
+        build,
+    }
+}
+
+/// Predict the SYN cookie the way masscan/masscanned compute it (aiming only).
+pub fn predict_cookie(key: &[u64; 2], src: &IpAddr, dst: &IpAddr, sport: u16, dport: u16) -> u32 {
+    let mut sip = SipHasher24::new_with_keys(key[0], key[1]);
+    match (src, dst) {
+        (IpAddr::V4(s), IpAddr::V4(d)) => {
+            sip.write_u32(u32::from(*s));
+            sip.write_u32(u32::from(*d));
+        }
+        (IpAddr::V6(s), IpAddr::V6(d)) => {
+            sip.write_u128(u128::from(*s));
+            sip.write_u128(u128::from(*d));
+        }
+        _ => {}
+    }
+    sip.write_u16(sport);
+    sip.write_u16(dport);
+    (sip.finish() & 0xffff_ffff) as u32
+}
+
+struct Flow {
+    src: IpAddr,
+    dst: IpAddr,
+    sport: u16,
+    dport: u16,
+}
+
+impl Flow {
+    fn v4(sport: u16, dport: u16) -> Flow {
+        Flow {
+            src: IpAddr::V4(peer4()),
+            dst: IpAddr::V4(node4()),
+            sport,
+            dport,
+        }
+    }
+    fn v6(sport: u16, dport: u16) -> Flow {
+        Flow {
+            src: IpAddr::V6(peer6()),
+            dst: IpAddr::V6(node6()),
+            sport,
+            dport,
+        }
+    }
+    fn seg(&self, seq: u32, ack: u32, flags: u16, payload: &[u8]) -> Vec<u8> {
+        let f = TcpFields {
+            sport: self.sport,
+            dport: self.dport,
+            seq,
+            ack,
+            flags,
+            window: 4096,
+            urg: 0,
+            options: Vec::new(),
+        };
+        let t = tcp(&f, payload, &self.src, &self.dst);
+        frame_ip(&NODE_MAC, &PEER_MAC, &self.src, &self.dst, P_TCP, &t, 64)
+    }
+    fn udp(&self, payload: &[u8]) -> Vec<u8> {
+        let u = udp(self.sport, self.dport, payload, &self.src, &self.dst);
+        frame_ip(&NODE_MAC, &PEER_MAC, &self.src, &self.dst, P_UDP, &u, 64)
+    }
+    fn cookie(&self, key: &[u64; 2]) -> u32 {
+        predict_cookie(key, &self.src, &self.dst, self.sport, self.dport)
+    }
+}
+
+fn arp_request(tpa: Ipv4Addr) -> Vec<u8> {
+    let f = ArpFields {
+        htype: 1,
+        ptype: 0x0800,
+        hlen: 6,
+        plen: 4,
+        op: 1,
+        sha: PEER_MAC,
+        spa: peer4().octets(),
+        tha: [0; 6],
+        tpa: tpa.octets(),
+    };
+    eth(&BROADCAST, &PEER_MAC, ET_ARP, &arp(&f))
+}
+
+fn ns(target: Ipv6Addr) -> Vec<u8> {
+    let o = target.octets();
+    let dst = Ipv6Addr::new(0xff02, 0, 0, 0, 0, 1, 0xff00 | o[13] as u16, ((o[14] as u16) << 8) | o[15] as u16);
+    let mut body = vec![0u8; 4];
+    body.extend_from_slice(&o);
+    body.extend_from_slice(&[1, 1]);
+    body.extend_from_slice(&PEER_MAC);
+    let seg = icmp6(135, 0, &body, &peer6(), &dst);
+    eth(&[0x33, 0x33, 0xff, o[13], o[14], o[15]], &PEER_MAC, ET_IP6, &ipv6(&peer6(), &dst, P_ICMP6, &seg, 255))
+}
+
+fn echo4(ty: u8, code: u8, data: &[u8]) -> Vec<u8> {
+    let mut rest = vec![0x12, 0x34, 0, 1];
+    rest.extend_from_slice(data);
+    frame_ip(&NODE_MAC, &PEER_MAC, &IpAddr::V4(peer4()), &IpAddr::V4(node4()), P_ICMP, &icmp4(ty, code, &rest), 64)
+}
+
+fn echo6(ty: u8, code: u8, data: &[u8]) -> Vec<u8> {
+    let mut rest = vec![0x12, 0x34, 0, 1];
+    rest.extend_from_slice(data);
+    let seg = icmp6(ty, code, &rest, &peer6(), &node6());
+    frame_ip(&NODE_MAC, &PEER_MAC, &IpAddr::V6(peer6()), &IpAddr::V6(node6()), P_ICMP6, &seg, 64)
+}
+
+/// Canonical application requests (name, bytes, udp-capable, tcp-capable).
+fn canonical_apps(rng: &mut Rng) -> Vec<(&'static str, Vec<u8>, Vec<u8>)> {
+    // (name, datagram form, stream form)
+    let httpreq = b"GET /index.html HTTP/1.1\r\nHost: example.org\r\nUser-Agent: x\r\n\r\n".to_vec();
+    let sshid = b"SSH-2.0-OpenSSH_8.9p1 Ubuntu-3\r\n".to_vec();
+    let ghost = b"Gh0st\xad\x00\x00\x00\xe0\x00\x00\x00x\x9cKS``\x98\xc3\xc0\xc0\xc0\x06\xc4\x8c".to_vec();
+    let call = rpc::Call {
+        xid: 0x7265_1d13,
+        msg_type: 0,
+        rpcvers: 2,
+        prog: 100000,
+        vers: 2,
+        proc_: 3,
+        cred_flavor: 0,
+        cred: Vec::new(),
+        verf_flavor: 0,
+        verf: Vec::new(),
+        args: vec![0, 1, 0x86, 0xa3, 0, 0, 0, 3, 0, 0, 0, 6, 0, 0, 0, 0],
+    };
+    let dnsq = dns::build_query(0x1337, 0x0100, &[(b"\x03www\x07example\x03com\x00".to_vec(), 1, 1)]);
+    let mut v = vec![
+        ("http", httpreq.clone(), httpreq),
+        ("ssh", sshid.clone(), sshid),
+        ("ghost", ghost.clone(), ghost),
+        ("stun-magic", stun::build(1, &stun::gen_id(rng, true), &[(0x8022, rng.bytes(260))]), stun::build(1, &stun::gen_id(rng, true), &[(0x8022, rng.bytes(260))])),
+        ("stun-empty", stun::build(1, &stun::gen_id(rng, false), &[]), Vec::new()),
+        ("stun-change", stun::build(1, &stun::gen_id(rng, false), &[(3, vec![0, 0, 0, 2])]), Vec::new()),
+        ("stun-attrs", stun::build(1, &stun::gen_id(rng, true), &[(3, vec![0, 0, 0, 6]), (1, vec![0, 1, 0, 80, 1, 2, 3, 4]), (0x8022, rng.bytes(256))]), Vec::new()),
+        ("dns", dnsq, Vec::new()),
+        ("rpc", call.encode(), call.encode_tcp()),
+    ];
+    let s1 = smb::gen_smb1_negotiate(rng);
+    let s2 = smb::gen_smb1_session_setup(rng);
+    let s3 = smb::gen_smb2_negotiate(rng);
+    let s4 = smb::gen_smb2_session_setup(rng);
+    v.push(("smb1-negotiate", s1.clone(), s1));
+    v.push(("smb1-session", s2.clone(), s2));
+    v.push(("smb2-negotiate", s3.clone(), s3));
+    v.push(("smb2-session", s4.clone(), s4));
+    let _ = (http::METHODS, ssh::REPLY);
+    v
+}
+
+/// All truncation lengths of a frame.
+fn truncations(f: &[u8], steps: &mut Vec<Step>) {
+    for k in 0..f.len() {
+        steps.push(Step::Frame(f[..k].to_vec()));
+    }
+    steps.push(Step::Frame(f.to_vec()));
+}
+
+/// A handful of length-field lies for a frame.
+fn length_lies(f: &[u8], steps: &mut Vec<Step>) {
+    let p = parse(f);
+    let vals: [u16; 8] = [0, 1, 7, 19, 20, 0x7fff, 0xfffe, 0xffff];
+    match &p.l3 {
+        L3::V4(h) => {
+            for v in vals {
+                let mut g = f.to_vec();
+                g[16..18].copy_from_slice(&v.to_be_bytes());
+                steps.push(Step::Frame(g));
+            }
+            for ihl in 0..16u8 {
+                let mut g = f.to_vec();
+                g[14] = 0x40 | ihl;
+                steps.push(Step::Frame(g));
+            }
+            let _ = h;
+        }
+        L3::V6(_) => {
+            for v in vals {
+                let mut g = f.to_vec();
+                g[18..20].copy_from_slice(&v.to_be_bytes());
+                steps.push(Step::Frame(g));
+            }
+        }
+        _ => {}
+    }
+    match &p.l4 {
+        L4::Tcp(t) => {
+            for doff in 0..16u8 {
+                let mut g = f.to_vec();
+                g[t.seg_off + 12] = (doff << 4) | (g[t.seg_off + 12] & 0x0f);
+                steps.push(Step::Frame(g));
+            }
+        }
+        L4::Udp(u) => {
+            for v in vals {
+                let mut g = f.to_vec();
+                g[u.seg_off + 4..u.seg_off + 6].copy_from_slice(&v.to_be_bytes());
+                steps.push(Step::Frame(g));
+            }
+        }
+        _ => {}
+    }
+}
+
+fn sc_c01(seed: u64, thorough: bool) -> Vec<Scenario> {
+    let mut out = Vec::new();
+    let key = [0u64, 0u64];
+    let combos: Vec<(Build, LoggerKind, u8)> = if thorough {
+        vec![
+            (Build::Debug, LoggerKind::Console, 5),
+            (Build::Release, LoggerKind::Logfmt, 5),
+            (Build::Debug, LoggerKind::None, 0),
+            (Build::Release, LoggerKind::None, 2),
+        ]
+    } else {
+        vec![(Build::Debug, LoggerKind::Console, 5), (Build::Release, LoggerKind::Logfmt, 2)]
+    };
+    for (ci, (build, logger, level)) in combos.into_iter().enumerate() {
+        let mut rng = Rng::new(derive(seed, "directed-c01", ci as u64));
+        let c = cfg(build, logger, level, key);
+        let apps = canonical_apps(&mut rng);
+        // L2/L3 canonical frames, every truncation, length lies
+        let mut steps = Vec::new();
+        let basics = vec![arp_request(node4()), ns(node6()), echo4(8, 0, b"abcdefgh"), echo6(128, 0, b"abcdefgh"), Flow::v4(40000, 80).seg(1, 0, F_SYN, &[]), Flow::v6(40000, 80).seg(1, 0, F_SYN, &[])];
+        for f in &basics {
+            truncations(f, &mut steps);
+            length_lies(f, &mut steps);
+        }
+        out.push(Scenario {
+            name: format!("c01-basics-{}", ci),
+            cfg: c.clone(),
+            start_ms: START,
+            steps,
+            samples: 0,
+        });
+        // application requests over UDP: every truncation of the datagram payload (headers kept
+        // consistent) and every truncation of the frame
+        let mut steps = Vec::new();
+        for (k, (_name, dgram, _)) in apps.iter().enumerate() {
+            for v6 in [false, true] {
+                let fl = if v6 { Flow::v6(41000 + k as u16, 3478) } else { Flow::v4(41000 + k as u16, 3478) };
+                for cut in 0..=dgram.len() {
+                    steps.push(Step::Frame(fl.udp(&dgram[..cut])));
+                }
+                if !v6 {
+                    let f = fl.udp(dgram);
+                    truncations(&f, &mut steps);
+                    length_lies(&f, &mut steps);
+                }
+            }
+        }
+        out.push(Scenario {
+            name: format!("c01-udp-apps-{}", ci),
+            cfg: c.clone(),
+            start_ms: START,
+            steps,
+            samples: 0,
+        });
+        // application requests over TCP on validated flows: every prefix as a single segment,
+        // then arbitrary follow-ups on the identified flow
+        let mut steps = Vec::new();
+        let mut port = 42000u16;
+        for (_name, _, stream) in apps.iter() {
+            if stream.is_empty() {
+                continue;
+            }
+            for cut in (0..=stream.len()).step_by(if thorough { 1 } else { 3 }) {
+                port += 1;
+                let fl = if cut % 2 == 0 { Flow::v4(port, 445) } else { Flow::v6(port, 445) };
+                let ck = fl.cookie(&key);
+                steps.push(Step::Frame(fl.seg(100, 0, F_SYN, &[])));
+                steps.push(Step::Frame(fl.seg(101, ck.wrapping_add(1), F_PSH | F_ACK, &stream[..cut])));
+                // hostile follow-up on the (possibly identified) flow
+                let follow = match cut % 4 {
+                    0 => rng.bytes_range(0, 64),
+                    1 => stream[cut..].to_vec(),
+                    2 => apps[rng.usize_below(apps.len())].1.clone(),
+                    _ => {
+                        let mut m = stream.clone();
+                        crate::apps::mutate(&mut m, &mut rng);
+                        m
+                    }
+                };
+                steps.push(Step::Frame(fl.seg(101 + cut as u32, ck.wrapping_add(1), F_PSH | F_ACK, &follow)));
+            }
+        }
+        out.push(Scenario {
+            name: format!("c01-tcp-apps-{}", ci),
+            cfg: c.clone(),
+            start_ms: START,
+            steps,
+            samples: 0,
+        });
+        // hostile STUN through a completed signature
+        let mut steps = Vec::new();
+        for k in 0..(if thorough { 4000 } else { 600 }) {
+            let m = stun::gen_hostile(&mut rng);
+            let fl = if k % 2 == 0 { Flow::v4(43000, 3478) } else { Flow::v6(43000, 3478) };
+            steps.push(Step::Frame(fl.udp(&m)));
+        }
+        out.push(Scenario {
+            name: format!("c01-stun-hostile-{}", ci),
+            cfg: c,
+            start_ms: START,
+            steps,
+            samples: 0,
+        });
+    }
+    out
+}
+
+/// All 512 flag values on a flow in four states: fresh, validated, after FIN, after restart.
+fn sc_flags(seed: u64, thorough: bool) -> Vec<Scenario> {
+    let mut out = Vec::new();
+    let builds: Vec<Build> = if thorough { vec![Build::Debug, Build::Release] } else { vec![Build::Release] };
+    for (bi, build) in builds.into_iter().enumerate() {
+        for v6 in [false, true] {
+            let mut rng = Rng::new(derive(seed, "directed-flags", bi as u64 * 2 + v6 as u64));
+            let key = [rng.u64(), rng.u64()];
+            let c = cfg(build, LoggerKind::None, 0, key);
+            let mut steps = Vec::new();
+            let mk = |sport: u16| if v6 { Flow::v6(sport, 8080) } else { Flow::v4(sport, 8080) };
+            // fresh tuples: one per flag value, with and without payload
+            for f in 0..512u16 {
+                let fl = mk(1000 + f);
+                let pay: &[u8] = if f % 3 == 0 { b"x" } else { b"" };
+                steps.push(Step::Frame(fl.seg(rng.edge_u32(), rng.edge_u32(), f, pay)));
+            }
+            // one validated flow, all flag values on it (ack = cookie+1 so that data segments are in sequence)
+            let fl = mk(2000);
+            let ck = fl.cookie(&key);
+            steps.push(Step::Frame(fl.seg(10, 0, F_SYN, &[])));
+            steps.push(Step::Frame(fl.seg(11, ck.wrapping_add(1), F_PSH | F_ACK, b"hello")));
+            for f in 0..512u16 {
+                steps.push(Step::Frame(fl.seg(16, ck.wrapping_add(1), f, if f % 2 == 0 { b"y" } else { b"" })));
+            }
+            // after FIN
+            steps.push(Step::Frame(fl.seg(16, ck.wrapping_add(1), F_FIN | F_ACK, &[])));
+            for f in 0..512u16 {
+                steps.push(Step::Frame(fl.seg(17, rng.edge_u32(), f, &[])));
+            }
+            // after restart: the flow must re-validate; SYN policy unchanged
+            steps.push(Step::Soft);
+            for f in 0..512u16 {
+                steps.push(Step::Frame(fl.seg(17, if f % 2 == 0 { ck.wrapping_add(2) } else { rng.u32() }, f, b"z")));
+            }
+            steps.push(Step::Frame(fl.seg(10, 0, F_SYN, &[])));
+            // sequence number wrap-around
+            for seq in [0xffff_ffffu32, 0xffff_fffe, 0, 0x7fff_ffff, 0x8000_0000] {
+                let f2 = mk(2100 + (seq % 7) as u16);
+                let c2 = f2.cookie(&key);
+                steps.push(Step::Frame(f2.seg(seq, 0, F_SYN, &[])));
+                steps.push(Step::Frame(f2.seg(seq.wrapping_add(1), c2.wrapping_add(1), F_PSH | F_ACK, b"0123456789")));
+                steps.push(Step::Frame(f2.seg(seq.wrapping_add(11), c2.wrapping_add(1), F_FIN | F_ACK, &[])));
+            }
+            out.push(Scenario {
+                name: format!("flags-{}-{}", if v6 { "v6" } else { "v4" }, build.as_str()),
+                cfg: c,
+                start_ms: START,
+                steps,
+                samples: 4,
+            });
+        }
+    }
+    out
+}
+
+/// DNS id sweep over UDP/IPv6 and UDP/IPv4: one id makes the reply's UDP checksum come out as zero.
+fn sc_c04(seed: u64, thorough: bool) -> Vec<Scenario> {
+    let mut out = Vec::new();
+    let c = cfg(Build::Release, LoggerKind::None, 0, [0, 0]);
+    for v6 in [true, false] {
+        let fl = if v6 { Flow::v6(5353, 53) } else { Flow::v4(5353, 53) };
+        let mut steps = Vec::new();
+        let stride = if thorough || v6 { 1 } else { 16 };
+        for id in (0..=0xffffu32).step_by(stride) {
+            let q = dns::build_query(id as u16, 0x0100, &[(b"\x01a\x00".to_vec(), 1, 1)]);
+            steps.push(Step::Frame(fl.udp(&q)));
+        }
+        out.push(Scenario {
+            name: format!("dns-id-sweep-{}", if v6 { "v6" } else { "v4" }),
+            cfg: c.clone(),
+            start_ms: START,
+            steps,
+            samples: 0,
+        });
+    }
+    // odd and large payload sizes, echo both versions
+    let mut rng = Rng::new(derive(seed, "directed-c04", 0));
+    let mut steps = Vec::new();
+    for n in (0..1473usize).step_by(if thorough { 1 } else { 13 }) {
+        let d = rng.bytes(n);
+        steps.push(Step::Frame(echo4(8, 0, &d)));
+        steps.push(Step::Frame(echo6(128, 0, &d)));
+    }
+    // STUN transaction ids: 65536 values of two id bytes over IPv6
+    if thorough {
+        for x in 0..=0xffffu32 {
+            let mut id = [0u8; 16];
+            id[..4].copy_from_slice(&stun::MAGIC);
+            id[4] = (x >> 8) as u8;
+            id[5] = x as u8;
+            let m = stun::build(1, &id, &[(0x8022, vec![0u8; 256])]);
+            steps.push(Step::Frame(Flow::v6(3478, 3478).udp(&m)));
+        }
+    }
+    out.push(Scenario {
+        name: "echo-sizes".into(),
+        cfg: c,
+        start_ms: START,
+        steps,
+        samples: 0,
+    });
+    out
+}
+
+/// Every ICMP / ICMPv6 type x code (thorough) or types x {0,1,255} (quick); every ARP opcode.
+fn sc_c05(_seed: u64, thorough: bool) -> Vec<Scenario> {
+    let c = cfg(Build::Release, LoggerKind::None, 0, [0, 0]);
+    let mut steps = Vec::new();
+    let codes: Vec<u8> = if thorough { (0..=255).collect() } else { vec![0, 1, 255] };
+    for ty in 0..=255u8 {
+        for code in &codes {
+            steps.push(Step::Frame(echo4(ty, *code, b"data")));
+            if ty == 135 {
+                // neighbour solicitation with a proper body
+                let mut f = ns(node6());
+                // patch the code and fix the checksum by rebuilding
+                let p = parse(&f);
+                if let L4::Icmp6(i) = &p.l4 {
+                    let body = f[i.rest_off..i.rest_off + i.rest_len].to_vec();
+                    let dst = match p.ip_dst() {
+                        Some(IpAddr::V6(d)) => d,
+                        _ => node6(),
+                    };
+                    let seg = icmp6(135, *code, &body, &peer6(), &dst);
+                    let l = f.len();
+                    f.truncate(l - seg.len());
+                    f.extend_from_slice(&seg);
+                }
+                steps.push(Step::Frame(f));
+            } else {
+                steps.push(Step::Frame(echo6(ty, *code, b"data")));
+            }
+        }
+    }
+    let ops: Vec<u16> = if thorough { (0..=0xffffu16).collect() } else { (0..64).chain([255, 256, 0x100, 0x200, 0xffff]).collect() };
+    for op in ops {
+        let mut f = arp_request(node4());
+        f[14 + 6..14 + 8].copy_from_slice(&op.to_be_bytes());
+        steps.push(Step::Frame(f));
+    }
+    // requests for addresses that are not handled
+    steps.push(Step::Frame(arp_request(Ipv4Addr::new(10, 0, 0, 2))));
+    steps.push(Step::Frame(ns(Ipv6Addr::new(0x2001, 0xdb8, 0, 0, 0, 0, 0, 2))));
+    vec![Scenario {
+        name: "icmp-arp-sweep".into(),
+        cfg: c,
+        start_ms: START,
+        steps,
+        samples: 0,
+    }]
+}
+
+/// All 1-cut (and, thorough, 2-cut) compositions of canonical HTTP and RPC streams, each on its own flow.
+fn sc_c11(seed: u64, thorough: bool) -> Vec<Scenario> {
+    let mut out = Vec::new();
+    let mut rng = Rng::new(derive(seed, "directed-c11", 0));
+    let key = [rng.u64(), rng.u64()];
+    let http1 = b"POST /a HTTP/1.0\r\nA: b\r\n\r\n".to_vec();
+    let http2 = b"OPTIONS /x?y HTTP/1.1\nHost: h\n\n".to_vec();
+    let call = rpc::Call {
+        xid: 0x1122_3344,
+        msg_type: 0,
+        rpcvers: 2,
+        prog: 100000,
+        vers: 4,
+        proc_: 4,
+        cred_flavor: 1,
+        cred: vec![1, 2, 3, 4, 5, 6, 7, 8],
+        verf_flavor: 0,
+        verf: Vec::new(),
+        args: Vec::new(),
+    };
+    let streams: Vec<(&str, Vec<u8>)> = vec![("http-crlf", http1), ("http-lf", http2), ("rpc-dump", call.encode_tcp())];
+    for (name, s) in streams {
+        let n = s.len();
+        let mut comps: Vec<Vec<usize>> = (1..n).map(|a| vec![a]).collect();
+        if thorough {
+            for a in 1..n {
+                for b in a + 1..n {
+                    comps.push(vec![a, b]);
+                }
+            }
+        }
+        // chunks of flows so that one scenario stays a short history
+        for (ci, chunk) in comps.chunks(120).enumerate() {
+            let c = cfg(Build::Release, LoggerKind::None, 0, key);
+            let mut steps = Vec::new();
+            for (k, cuts) in chunk.iter().enumerate() {
+                let sport = 10000 + (ci * 120 + k) as u16 % 50000;
+                let fl = if k % 2 == 0 { Flow::v4(sport, 111) } else { Flow::v6(sport, 111) };
+                let ck = fl.cookie(&key);
+                steps.push(Step::Frame(fl.seg(0, 0, F_SYN, &[])));
+                let mut prev = 0;
+                for c2 in cuts.iter().copied().chain(std::iter::once(n)) {
+                    steps.push(Step::Frame(fl.seg(1 + prev as u32, ck.wrapping_add(1), F_PSH | F_ACK, &s[prev..c2])));
+                    prev = c2;
+                }
+            }
+            out.push(Scenario {
+                name: format!("cuts-{}-{}", name, ci),
+                cfg: c,
+                start_ms: START,
+                steps,
+                samples: 1000,
+            });
+        }
+    }
+    out
+}
+
+/// Every byte value at each wildcard position of the RPC signatures, in otherwise valid calls.
+fn sc_c10(seed: u64, thorough: bool) -> Vec<Scenario> {
+    let mut rng = Rng::new(derive(seed, "directed-c10", 0));
+    let key = [rng.u64(), rng.u64()];
+    let c = cfg(Build::Release, LoggerKind::None, 0, key);
+    let base = rpc::Call {
+        xid: 0x9abc_def0,
+        msg_type: 0,
+        rpcvers: 2,
+        prog: 100000,
+        vers: 2,
+        proc_: 3,
+        cred_flavor: 0,
+        cred: Vec::new(),
+        verf_flavor: 0,
+        verf: Vec::new(),
+        args: Vec::new(),
+    };
+    let mut steps = Vec::new();
+    let udp_bytes = base.encode();
+    // wildcard positions of RPC:UDP: 0-3 (xid), 11 (rpc version), 15 (program low byte), 16-19 (version), 23 (procedure)
+    for pos in [0usize, 1, 2, 3, 15, 16, 17, 18, 19, 23] {
+        for b in 0..=255u8 {
+            let mut m = udp_bytes.clone();
+            m[pos] = b;
+            steps.push(Step::Frame(Flow::v4(20000 + pos as u16, 111).udp(&m)));
+        }
+    }
+    // over TCP: xid bytes (positions 4-7 of the record-marked form), one flow per value
+    let tcp_bytes = base.encode_tcp();
+    let positions: Vec<usize> = if thorough { vec![4, 5, 6, 7, 19, 20, 27] } else { vec![4, 5] };
+    let mut sport = 21000u16;
+    for pos in positions {
+        for b in 0..=255u8 {
+            let mut m = tcp_bytes.clone();
+            m[pos] = b;
+            sport += 1;
+            let fl = Flow::v4(sport, 111);
+            let ck = fl.cookie(&key);
+            steps.push(Step::Frame(fl.seg(0, 0, F_SYN, &[])));
+            steps.push(Step::Frame(fl.seg(1, ck.wrapping_add(1), F_PSH | F_ACK, &m)));
+        }
+    }
+    // every first byte for every other protocol's canonical request with one byte changed at 0
+    vec![Scenario {
+        name: "rpc-wildcard-bytes".into(),
+        cfg: c,
+        start_ms: START,
+        steps,
+        samples: if thorough { 400 } else { 60 },
+    }]
+}
+
+pub fn scenarios(prop: &str, tier: &str, seed: u64) -> Vec<Scenario> {
+    let thorough = tier == "thorough";
+    match prop {
+        "C01" => sc_c01(seed, thorough),
+        "C06" | "C07" | "C09" => sc_flags(seed, thorough),
+        "C03" => sc_flags(seed, false),
+        "C04" => {
+            let mut v = sc_c04(seed, thorough);
+            v.extend(sc_flags(seed, false));
+            v
+        }
+        "C05" => sc_c05(seed, thorough),
+        "C11" => sc_c11(seed, thorough),
+        "C10" | "C16" => sc_c10(seed, thorough),
+        "C12" => sc_c05(seed, false),
+        "C20" => {
+            let mut v = sc_c05(seed, false);
+            for s in v.iter_mut() {
+                s.cfg.logger = LoggerKind::Console;
+            }
+            let mut w = sc_flags(seed, false);
+            for s in w.iter_mut() {
+                s.cfg.logger = LoggerKind::Logfmt;
+            }
+            v.extend(w);
+            v
+        }
+        _ => Vec::new(),
+    }
 }
